@@ -31,7 +31,7 @@ ANCHORS = [
     "stereomolgraph.graphs.mg:MolGraph.from_atom_types_and_bond_order_matrix",
 ]
 REQUIRED_ANCHORS = ANCHORS
-REQUIRED = ["roundtrips", "single_atom", "connectivity_matrices", "contract_evaluations", "rigid_motions", "permutations", "threshold_pairs", "translation_magnitude:1e+06", "comment:fourcol", "comment:nonascii", "comment:none", "large_geometries", "foreign_cutoff_overrides", "session_requests", "session_cutoff_edits"]
+REQUIRED = ["roundtrips", "single_atom", "connectivity_matrices", "contract_evaluations", "rigid_motions", "permutations", "threshold_pairs", "translation_magnitude:1e+06", "comment:fourcol", "comment:nonascii", "comment:linebreak-like", "comment:none", "large_geometries", "foreign_cutoff_overrides", "session_requests", "session_cutoff_edits"]
 _contract = {"n": 0}
 
 
@@ -82,6 +82,8 @@ COMMENTS = {
     "nonascii": lambda r: "énergie µ 中文 Å",
     "long": lambda r: "x" * 400,
     "tabs": lambda r: "a\tb\tc",
+    # characters that str.splitlines() treats as line ends but a text stream does not (only "\n" ends the comment line)
+    "linebreak-like": lambda r: "page 1" + r.choice(["\x0c", "\x0b", "\x1c", "\x1d", "\x1e", "\x85", "\u2028", "\u2029", "\r"]) + r.choice(["water", "C 0.0 0.0 0.0", "step 2"]),
 }
 
 
@@ -367,13 +369,34 @@ def _session(ctx, case, els, c, loose, rng):
     els = [int(x) for x in arr]
     # the cut-off table edited between requests (both key orders), then the same geometry in two atom orders
     i, j = rng.sample(range(n), 2)
-    val = float(sf.connectivity_cutoff[(PERIODIC_TABLE[els[i]], PERIODIC_TABLE[els[j]])]) * rng.choice([0.5, 1.7, 3.0])
-    for key in ((PERIODIC_TABLE[els[i]], PERIODIC_TABLE[els[j]]), (PERIODIC_TABLE[els[j]], PERIODIC_TABLE[els[i]])):
+    val = float(sf.connectivity_cutoff[(PERIODIC_TABLE[els[i]], PERIODIC_TABLE[els[j]])]) * rng.choice([0.5, 1.7, 3.0, 0.0])  # 0.0: "never bonded"
+    keys = [(PERIODIC_TABLE[els[i]], PERIODIC_TABLE[els[j]]), (PERIODIC_TABLE[els[j]], PERIODIC_TABLE[els[i]])]
+    if rng.random() < 0.5:
+        # only one orientation is stored: a pair that was never looked up in the other orientation is answered from the
+        # stored one (the table's symmetric lookup)
+        sf = BondsFromDistance()
+        keys = keys[:1]
+        ctx.count("session_one_orientation_edits")
+    for key in keys:
         sf.connectivity_cutoff[key] = val  # a symmetric table: the same value under both key orders
         edits.append((key, val))
     ctx.count("session_cutoff_edits")
     m1 = ask("cutoff-edited", els, c, els, none)
     if m1 is None:
+        return
+    # the edited rule itself: pairs of the two edited elements are bonded exactly below the new cut-off, all others as before
+    exp, unsure = _expected(els, c, 1e-9)
+    zi, zj = PERIODIC_TABLE[els[i]], PERIODIC_TABLE[els[j]]
+    for a in range(n):
+        for b in range(n):
+            if a != b and {PERIODIC_TABLE[els[a]], PERIODIC_TABLE[els[b]]} == {zi, zj}:
+                d = math.dist(c[a], c[b])
+                exp[a, b] = 1 if d < val else 0
+                unsure[a, b] = abs(d - val) <= 1e-9 * max(val, 1.0)
+    bad = (m1 != exp) & ~unsure
+    if bad.any():
+        a, b = map(int, np.argwhere(bad)[0])
+        ctx.violate("C20/connectivity-wrong/edited-cutoff", f"cut-off for elements {els[i]}/{els[j]} set to {val!r} ({len(keys)} key order(s) stored): pair ({a},{b}) (elements {els[a]},{els[b]}, d={math.dist(c[a], c[b])!r}) is {'bonded' if m1[a, b] else 'not bonded'}", case)
         return
     perm = list(range(n))
     rng.shuffle(perm)
